@@ -5,7 +5,7 @@
    openfile_depth) and the reference's budget (spec_max_links) are the
    constants goextract read from those files on this run. *)
 From Coq Require Import Sorting.Sorted.
-From Apko Require Import Base.Prelude Model.MemFS Spec.FsSpec Proofs.FsProofs Proofs.FsLaws Proofs.FsWf Proofs.FsAgree Generated.FsConsts.
+From Apko Require Import Base.Prelude Model.MemFS Spec.FsSpec Proofs.FsProofs Proofs.FsLaws Proofs.FsWf Proofs.FsAgree Proofs.FsReach Generated.FsConsts.
 Open Scope string_scope. Open Scope list_scope.
 
 (* the limits the theorems below are about: both files say the same, and it is
@@ -57,6 +57,91 @@ Theorem c17_metadata_last_set : forall s p i, wfs s -> s_node (heap s) p = inl i
      spec_step s' (Stat p) = (s', info_of (set_mtime (Some t) (get (heap s) i)))).
 Proof. exact metadata_last_set_wf. Qed.
 Print Assumptions c17_metadata_last_set.
+
+(* ---- the reachable-state invariant of the CODE ---------------------------------------------
+   [wf s]: every inode number stored in a directory entry or an open handle
+   exists and inode 0 is a directory.  It holds of the empty filesystem, is
+   preserved by the code's step for BOTH in-memory backends and EVERY operation
+   (inside the envelope or not: the refuted corners included), hence by every
+   operation sequence ([reach b ops] = fold_left of the step = the state of
+   model_run); the reference's step preserves it as well. *)
+Theorem c17_wf_invariant_model :
+  wf init_st /\
+  (forall b s o, wf s -> wf (fst (model_step b s o))) /\
+  (forall s o, wf s -> wf (fst (spec_step s o))) /\
+  (forall b ops, wf (reach b ops)) /\
+  (forall b ops, reach b ops = fst (model_run b init_st ops)).
+Proof.
+  split; [exact init_wf_model | split; [exact model_step_wf | split; [exact spec_step_wf_root |
+  split; [exact reach_wf | exact reach_model_run]]]].
+Qed.
+Print Assumptions c17_wf_invariant_model.
+
+(* the two laws without any range premise, on every state the code can reach
+   (by any operation sequence, corners included) *)
+Theorem c17_read_after_write_reachable : forall b ops i p hd s' r,
+  let s := reach b ops in
+  nth_error (handles s) i = Some hd -> f_app (h_fl hd) = false -> p <> [] ->
+  spec_step s (Write i p) = (s', r) -> is_failure r = false ->
+  r = ONum (blen p) /\
+  forall j hj, nth_error (handles s') j = Some hj -> h_open hj = true -> readable (h_fl hj) = true ->
+    h_ino hj = h_ino hd -> is_dir (heap s') (h_ino hd) = false ->
+    spec_step s' (ReadAt j (List.length p) (h_off hd)) = (s', OBytes p).
+Proof. exact read_after_write_reachable. Qed.
+Print Assumptions c17_read_after_write_reachable.
+
+Theorem c17_metadata_last_set_reachable : forall b ops p i,
+  let s := reach b ops in
+  s_node (heap s) p = inl i ->
+  (forall m s', spec_step s (Chmod p m) = (s', OOk) ->
+     spec_step s' (Stat p) = (s', info_of (set_perm m (get (heap s) i)))) /\
+  (forall u g s', spec_step s (Chown p u g) = (s', OOk) ->
+     spec_step s' (Stat p) = (s', info_of (set_owner u g (get (heap s) i)))) /\
+  (forall t s', spec_step s (Chtimes p t) = (s', OOk) ->
+     spec_step s' (Stat p) = (s', info_of (set_mtime (Some t) (get (heap s) i)))).
+Proof. exact metadata_last_set_reachable. Qed.
+Print Assumptions c17_metadata_last_set_reachable.
+
+(* and as statements about the code's own steps: on a reachable state, a Write
+   inside the envelope is read back by the CODE's ReadAt through any open
+   readable handle on the inode (that ReadAt is inside the envelope by itself);
+   Chmod/Chown/Chtimes inside the envelope are reported by the code's Stat *)
+Theorem c17_model_read_after_write_reachable : forall b ops i p hd s' r,
+  let s := reach b ops in
+  nth_error (handles s) i = Some hd -> f_app (h_fl hd) = false -> p <> [] ->
+  E b s (Write i p) = true ->
+  model_step b s (Write i p) = (s', r) -> is_failure r = false ->
+  r = ONum (blen p) /\
+  forall j hj, nth_error (handles s') j = Some hj -> h_open hj = true -> readable (h_fl hj) = true ->
+    h_ino hj = h_ino hd -> is_dir (heap s') (h_ino hd) = false ->
+    model_step b s' (ReadAt j (List.length p) (h_off hd)) = (s', OBytes p).
+Proof. exact model_read_after_write_reachable. Qed.
+Print Assumptions c17_model_read_after_write_reachable.
+
+Theorem c17_model_metadata_last_set_reachable : forall b ops p i,
+  let s := reach b ops in
+  s_node (heap s) p = inl i ->
+  (forall m s', E b s (Chmod p m) = true -> model_step b s (Chmod p m) = (s', OOk) -> E b s' (Stat p) = true ->
+     model_step b s' (Stat p) = (s', info_of (set_perm m (get (heap s) i)))) /\
+  (forall u g s', E b s (Chown p u g) = true -> model_step b s (Chown p u g) = (s', OOk) -> E b s' (Stat p) = true ->
+     model_step b s' (Stat p) = (s', info_of (set_owner u g (get (heap s) i)))) /\
+  (forall t s', E b s (Chtimes p t) = true -> model_step b s (Chtimes p t) = (s', OOk) -> E b s' (Stat p) = true ->
+     model_step b s' (Stat p) = (s', info_of (set_mtime (Some t) (get (heap s) i)))).
+Proof. exact model_metadata_last_set_reachable. Qed.
+Print Assumptions c17_model_metadata_last_set_reachable.
+
+(* the hypotheses are satisfiable on a state reached THROUGH corners (a
+   write through a read-only handle, Remove of a non-empty
+   directory), on both backends *)
+Example c17_reachable_laws_nonvacuous : forall b,
+  let ops := [Mkdir ["d"] 493%N; WriteFile ["d"; "f"] [1; 2]%N 420%N; OpenFile ["d"; "f"] (mkFl ARd false false false false) 0%N;
+              Write 0 [5]%N; Remove ["d"]; WriteFile ["g"] [1]%N 420%N; OpenFile ["g"] (mkFl ARdWr false false false false) 0%N] in
+  let s := reach b ops in
+  run_in_E b init_st ops = false /\
+  (exists hd, nth_error (handles s) 1 = Some hd /\ f_app (h_fl hd) = false /\ E b s (Write 1 [7; 8]%N) = true /\
+              is_failure (snd (model_step b s (Write 1 [7; 8]%N))) = false) /\
+  s_node (heap s) ["g"] = inl 3 /\ E b s (Chmod ["g"] 384%N) = true.
+Proof. intro b; destruct b; vm_compute; repeat split; try reflexivity; eexists; repeat split; reflexivity. Qed.
 
 (* directory listings are complete, strictly ascending in byte order, hence
    duplicate-free; listing changes nothing *)
